@@ -140,6 +140,15 @@ date_sym!(c11_date_ug5_holds, "GGGGG", b'G', 5);
 date_sym!(c11_date_ug6_holds, "GGGGGG", b'G', 6);
 date_sym!(c11_date_ug7_holds, "GGGGGGG", b'G', 7);
 date_sym!(c11_date_y1_holds, "y", b'y', 1);
+/// `yy`: documented by example only (years 2, 20, 201, 2017, 20173 -> 02, 20, 01, 17, 73): the year modulo 100, two digits.
+/// The table gives no BC example, so the value is claimed for years >= 1 (days >= 0); for BC days only that the call returns.
+pub fn c11_date_y2_holds(d: i32) {
+    let r = format_date_part("yy", d);
+    if d >= 0 {
+        let (year, _, _) = days_to_date(d);
+        assert!(r == zero_padded_i(year % 100, 2));
+    }
+}
 date_sym!(c11_date_y3_holds, "yyy", b'y', 3);
 date_sym!(c11_date_y4_holds, "yyyy", b'y', 4);
 date_sym!(c11_date_y5_holds, "yyyyy", b'y', 5);
